@@ -94,22 +94,33 @@ def seeded(update_meta=True):
     /verif/benign/<id>/patch.diff (behaviour-preserving refactor) must NOT be (exit 0, or 2 = undecided, never 1)"""
     sd = os.path.join(ROOT, "seeded")
     rc = 0
-    for name in sorted(os.listdir(sd)) if os.path.isdir(sd) else []:
+    from concurrent.futures import ThreadPoolExecutor
+    workers = int(os.environ.get("VERIF_SELFTEST_WORKERS", "3"))
+    only = os.environ.get("VERIF_SELFTEST_ONLY")          # regex on the seed name, e.g. 'C0[12]-'
+
+    def one_seed(name):
         meta_p = os.path.join(sd, name, "meta.json")
-        if not os.path.exists(meta_p):
-            continue
         meta = json.load(open(meta_p))
         r = subprocess.run([sys.executable, os.path.join(ROOT, "tools", "mutcheck.py"), meta["property"], "--patch",
                             os.path.join(sd, name, "patch.diff")], capture_output=True, text=True)
         caught = "VIOLATION property=%s" % meta["property"] in r.stdout
         lines = [l for l in r.stdout.splitlines() if l.startswith(("VIOLATION", "UNDECIDED", "CHECKER-ERROR", "  function", meta["property"] + " "))]
-        print("seeded %-12s %s %s" % (name, meta["property"], "caught" if caught else "MISSED  " + " | ".join(lines[:2])[:200]), flush=True)
-        if update_meta:
-            meta["caught_by_vf_check"] = caught
-            meta["vf_check_lines"] = lines[:8]
-            json.dump(meta, open(meta_p, "w"), indent=1)
-        if not caught:
-            rc = 1
+        return name, meta_p, meta, caught, lines
+
+    import re as _re
+    names = [n for n in (sorted(os.listdir(sd)) if os.path.isdir(sd) else []) if os.path.exists(os.path.join(sd, n, "meta.json"))
+             and (not only or _re.search(only, n))]
+    with ThreadPoolExecutor(max_workers=workers) as ex:
+        for name, meta_p, meta, caught, lines in ex.map(one_seed, names):
+            print("seeded %-12s %s %s" % (name, meta["property"], "caught" if caught else "MISSED  " + " | ".join(lines[:2])[:200]), flush=True)
+            if update_meta:
+                meta["caught_by_vf_check"] = caught
+                meta["vf_check_lines"] = [l[:400] for l in lines[:8]]
+                json.dump(meta, open(meta_p, "w"), indent=1)
+            if not caught:
+                rc = 1
+    if only:
+        return rc
     bd = os.path.join(ROOT, "benign")
     res = {}
     for name in sorted(os.listdir(bd)) if os.path.isdir(bd) else []:
